@@ -157,7 +157,7 @@ type Run struct {
 func NewRun(prop, tier string, seed uint64, out string) *Run {
 	_ = os.MkdirAll(out, 0o755)
 	r := &Run{Prop: prop, Tier: tier, Seed: seed, Out: out, Rng: NewRng(seed),
-		distinct: map[string]struct{}{}, perShard: 400, sampleBy: map[string]int{}}
+		distinct: map[string]struct{}{}, perShard: 120, sampleBy: map[string]int{}}
 	r.Sum = Summary{Property: prop, Tier: tier, Seed: seed,
 		Distribution: map[string]int{}, Exhaustive: map[string]bool{}}
 	f, err := os.Create(filepath.Join(out, "cases_index.jsonl"))
